@@ -148,6 +148,8 @@ def decorate_pool(rng: random.Random, pool: list, cfg: dict) -> None:
         p["held_alias"] = rng.choice(["forward_euler", "euler", "explicit_euler", "forward_explicit_euler"])
         p["public_fn"] = rng.choice(["explicit_euler", "explicit_euler", "generalized_rush_larsen"]) if not p["large"] else "explicit_euler"
         p["comp_ci"] = rng.randrange(0, 4)
+        p["api_calls"] = rng.sample(API_CALLS, 3) if not p["large"] else ["sorted_assignments_ru", "states_params"]
+        p["api_calls"] = sorted(set(p["api_calls"]))
         cli = rng.choice([["ode2py", "-f", "none"], ["ode2py", "-f", "none", "--scheme", "explicit_euler", "--remove-unused"],
                           ["ode2c", "-f", "none", "--to", ".c"], ["ode2c", "-f", "none", "--remove-unused", "--scheme", "explicit_euler"],
                           ["ode2py", "-f", "none", "-b", "jax"]])
@@ -186,6 +188,10 @@ def perturbation(rng: random.Random, pool: list, enabled: list) -> dict:
     return {"op": kind}
 
 
+API_CALLS = ["sorted_assignments_ru", "sorted_assignments_ru", "sorted_assignments_all", "sorted_state_derivatives",
+             "scheme_direct_ru", "scheme_direct_ru", "scheme_direct", "scheme_direct_grl_ru", "scheme_direct_hrl", "dependents",
+             "missing_variables", "states_params", "rhs_matrix", "states_matrix", "repr_eq"]
+
 PERT_KINDS = ["GET_SCHEME", "GET_SCHEME", "CLI_INPROC", "MYOKIT", "CLEAR_CACHE", "GC", "LOAD_OTHER"]
 
 
@@ -197,7 +203,7 @@ def build_life(rng: random.Random, k: int, pool: list, cfg: dict, phase: int, ar
     enabled = [x for x in sorted(set(PERT_KINDS)) if rng.random() < 0.6] or ["GET_SCHEME"]
     use = {n: rng.random() < p for n, p in
            [("piece", 0.5), ("held", 0.5), ("public", 0.5), ("derive", 0.45), ("layout", 0.8),
-            ("repeat", 0.4), ("array", 0.5), ("cli", 0.3)]}
+            ("repeat", 0.4), ("array", 0.5), ("cli", 0.3), ("api", 0.6)]}
     p_pert = rng.choice([0.0, 0.15, 0.3, 0.5])
     lo, hi = cfg["per_life"]
     candidates = [p for p in pool if not p["large"]]
@@ -244,6 +250,14 @@ def build_life(rng: random.Random, k: int, pool: list, cfg: dict, phase: int, ar
             if len(m["optsets"]) > 1 and rng.random() < 0.5:
                 body.append({"op": "GEN", "h": h2, "opts": m["optsets"][1]})
             body.append({"op": "LAYOUT", "h": h2})
+        api_first = None
+        if use["api"]:
+            calls = rng.sample(m["api_calls"], rng.randrange(1, len(m["api_calls"]) + 1))
+            for w in calls:
+                body.append({"op": "API", "h": h, "what": w})
+            if rng.random() < 0.5:
+                # a direct API call as the very first thing that touches the fresh object
+                api_first = {"op": "API", "h": h, "what": calls[0]}
         if use["cli"] and not m["large"]:
             body.append({"op": "CLI_GEN", "m": m["id"], "args": m["cli_args"]})
         if use["array"] and not m["large"]:
@@ -258,6 +272,8 @@ def build_life(rng: random.Random, k: int, pool: list, cfg: dict, phase: int, ar
             rep = rng.choice([b for b in body if b["op"] in ("GEN", "LAYOUT", "PIECE")] or body)
             if rep["op"] not in ("DERIVE", "SAVE_ARRAY"):
                 body.append(dict(rep))
+        if api_first is not None:
+            body = [api_first] + [b for b in body if not (b["op"] == "API" and b["what"] == api_first["what"])]
         seqs.append(seq + body)
     if phase == 1 and array_jobs and use["array"]:
         # name arrays another life saved: needs the same model loaded here, from a file
